@@ -81,6 +81,7 @@ func nxConfigs(part string, thorough bool) []*nxCfg {
 	case "c01":
 		return []*nxCfg{
 			{Name: "w-r-leaderchange", N: 3, MaxDev: pick(2, 3), Prefix: nxWarm, Script: []string{"W1", "R2", "W2", "R1", "H1"}, Timeouts: pick(1, 2), Crashes: 1, Drops: 2, Reorders: 1, LazyApplies: 1, Reads: pick(0, 1), Transfers: pick(0, 1), Horizon: 150},
+			{Name: "5v-stale-leader-read", N: 5, MaxDev: pick(1, 2), Prefix: nxWarm, Script: []string{"W1", "T3", "H3", "W3", "H3", "R1", "H1", "H1", "R2", "H1", "H1", "H3"}, Partitions: 1, Heartbeats: pick(0, 1), Horizon: 300},
 			{Name: "partitioned-old-leader", N: 3, MaxDev: pick(2, 3), Prefix: nxWarm, Script: []string{"W1", "T2", "H2", "W2", "H2", "R1", "H1", "R3", "H2"}, Partitions: 2, Heartbeats: 1, LazyApplies: 1, Horizon: 200},
 			{Name: "newleader-read", N: 3, MaxDev: pick(2, 3), Prefix: nxWarm, Script: []string{"W1", "T2", "R2", "H2"}, Reads: 1, LazyApplies: 1, Reorders: 1, Drops: 2, Horizon: 150},
 			{Name: "reads-follower", N: 3, MaxDev: pick(2, 3), Prefix: nxWarm, Script: []string{"W2", "R3", "R1", "W3", "R2", "H1"}, Timeouts: 2, Crashes: 1, Drops: 3, LazyApplies: 1, Heartbeats: 1, Horizon: 150},
